@@ -56,6 +56,7 @@ func main() {
 	stubs := flag.String("stub", "go.opentelemetry.io/,github.com/sirupsen/logrus,github.com/formancehq/go-libs/v5/pkg/observe", "comma separated package path prefixes whose functions are no-op stubs")
 	noInit := flag.String("noinit", "runtime,internal/,syscall,os,sync,reflect,unsafe,crypto/,net,vendor/,golang.org/x/sys,golang.org/x/net,google.golang.org,github.com/jackc,github.com/uptrace,database/sql", "comma separated package path prefixes whose init is skipped")
 	tags := flag.String("tags", "", "build tags")
+	maxWitness := flag.Int("witnesses", 2, "concrete witnesses of complete paths kept per harness")
 	flag.Parse()
 
 	res := &runResult{Dir: *dir, Pkg: *pkgPat, Solver: *solverBin}
@@ -219,7 +220,7 @@ func main() {
 		fail("no harness matches %q", *run)
 	}
 	for _, h := range hs {
-		c := &config{maxPaths: *maxPaths, maxDecisions: *maxDec, maxViol: *maxViol, maxSteps: *maxSteps, panicsAre: "violation", trace: *trace}
+		c := &config{maxPaths: *maxPaths, maxDecisions: *maxDec, maxViol: *maxViol, maxSteps: *maxSteps, panicsAre: "violation", trace: *trace, maxWitness: *maxWitness}
 		if *budget > 0 {
 			c.deadline = time.Now().Add(*budget)
 		}
